@@ -521,7 +521,10 @@ func (r *Run) finish() int {
 		for _, e := range r.infraErr {
 			fmt.Fprintln(os.Stderr, "INFRASTRUCTURE ERROR:", e)
 		}
-		return 2
+		if len(unknown) == 0 && len(r.extViol) == 0 {
+			return 2
+		}
+		// reproducible violations exist as well: they are reported below; the non-reproducible ones stay listed above and in the evidence
 	}
 	for _, p := range r.extViol {
 		fmt.Printf("VIOLATION property=%s replay=%s\n", r.ID, p)
